@@ -77,6 +77,16 @@ def check(run):
     for c0 in map_cases(run.rng, 0):
         if not c0["aux"]:
             plans.append([dict(c0, nils=True)])
+    # stateful callbacks (the answer depends on the number of the call): every helper whose definition asks once per element, in order
+    import itertools as _it2
+    for n in range(0, 6):
+        for sv in ([list(range(1, n + 1)), [3] * n, [2, 1] * (n // 2) + [2] * (n % 2)]):
+            for fam in ("oddcall", "first2"):
+                for op in ("Filter", "Any", "All", "IndexFunc"):
+                    plans.append([dict(op=op, s=sv, a=0, b=0, aux=[], fam=fam)])
+            plans.append([dict(op="Map", s=sv, a=0, b=0, aux=[], fam="callno")])
+            plans.append([dict(op="GroupBy", s=sv, a=0, b=0, aux=[], fam="callpar")])
+            plans.append([dict(op="CountBy", s=sv, a=0, b=0, aux=[], fam="callpar")])
     # the map helpers on float64 keys, NaN included (key id 0; several NaN entries can coexist, with distinct values here)
     for m in ([], [1, 5], [0, 5], [0, 5, 0, 6], [1, 5, 0, 6], [1, 5, 2, 6, 0, 7, 0, 8, 0, 9], [3, 7, 1, 7]):
         for op in ("MClone", "MClear", "MKeys", "MValues"):
